@@ -739,6 +739,15 @@ def uncommitted_tail(cx):
     for size in sizes:
         closures = [x for x in walk(size) if x[0] == "closure"]
         skip = [x for x in walk(size) if x[0] == "call" and (x[1].endswith("::skip_while") or x[1].endswith("::filter"))]
+        if not skip:
+            # third form: the first accounted entry is looked up, `ents[ents.iter().position(|e| e.index > tail).unwrap_or(ents.len())..]`
+            # (the position predicate is a keep-predicate, like filter's; no match = nothing is accounted)
+            for x in walk(size):
+                if x[0] == "adt" and x[1].endswith("RangeFrom::RangeFrom"):
+                    st = dict(x[2]).get("start")
+                    if st is not None and st[0] == "call" and st[1].endswith("Option::unwrap_or") and len(st[2]) == 2 and st[2][0][0] == "call" and st[2][0][1].endswith("::position") \
+                            and st[2][1][0] in ("call", "len") and show(st[2][1]).split("(")[0].endswith("len"):
+                        skip.append(st[2][0])
         cx.check(len(skip) == 1, name + ":skip", "entries up to last_log_tail_index are skipped before summing (found %s)" % show(size)[:160])
         for sk in skip:
             cl = [a for a in sk[2] if a[0] == "closure"]
@@ -761,7 +770,7 @@ def uncommitted_tail(cx):
                         ok = True
                     if r[0] == "not" and r[1][0] == "bin" and r[1][1] == "Gt" and is_idx(r[1][2]) and is_tail(r[1][3]):
                         ok = True
-                    if sk[1].endswith("::filter"):
+                    if sk[1].endswith("::filter") or sk[1].endswith("::position"):
                         # keep-predicate: the complement
                         ok = (r[0] == "bin" and r[1] == "Gt" and is_idx(r[2]) and is_tail(r[3])) or (r[0] == "bin" and r[1] == "Lt" and is_tail(r[2]) and is_idx(r[3]))
                     shown = show(r)
@@ -785,9 +794,26 @@ def uncommitted_tail(cx):
         cx.check(okm, name + ":bytes", "the released size is the sum of the payload lengths")
         n += 1
         # the counter saturates at zero, else decreases by exactly that size
+        variants = []
         for s in [x for x in cx.prog.writes.get(UNC, []) if x.fn is f and "stmt" in x.data]:
             v = write_value(cx, s)
-            lits = cx.guard_lits(s)
+            if v[0] == "phi":
+                # `counter = if enough { counter - size } else { 0 }`: one store of a value chosen earlier -- read it per path
+                from ..engine import subst_phis
+                try:
+                    pv = g.site_values(s.at, lambda env: dict(env or {}), 2000)
+                except OverflowError:
+                    pv = None
+                if pv:
+                    seen_v = []
+                    for lits_, env_ in pv:
+                        v_ = subst_phis(v, env_)
+                        if (frozenset(lits_), v_) not in seen_v:
+                            seen_v.append((frozenset(lits_), v_))
+                            variants.append((s, v_, list(lits_)))
+                    continue
+            variants.append((s, v, cx.guard_lits(s)))
+        for s, v, lits in variants:
             cs = ("call", None)
             under = any(l[0] == "is" and l[2] is True and l[1][0] == "bin" and l[1] == ("bin", "Lt", l[1][2], size) and is_f(l[1][2], UNC) for l in lits) or \
                 any(l[0] == "in" and l[2] == frozenset(["None"]) and csub(l[1]) and l[1][2][1] == size for l in lits)
